@@ -136,3 +136,20 @@ Example link_edit_changes_behaviour_only :
   text_of (fun m _ _ _ => m) (fun _ _ _ => 0) (fun w => w) [] GCC_RELEASE_FLAGS GCC_DEVEL_FLAGS false (apply_edit (ELdflags [2]) c)
     = text_of (fun m _ _ _ => m) (fun _ _ _ => 0) (fun w => w) [] GCC_RELEASE_FLAGS GCC_DEVEL_FLAGS false c.
 Proof. vm_compute. split; [discriminate|reflexivity]. Qed.
+
+(* THE COVERING IS NEEDED: whatever the front end, the hash and the base flags are, a heading that leaves the
+   link options out lets an edit through: choosing other link options changes what runs (a behaviour that
+   depends on the command line, e.g. which libk08.a is linked) and nothing of the text.  So the statement
+   of [edit_shows_in_text_lemma] holds for every behaviour only if the heading covers the executed command. *)
+Theorem heading_covering_command_needed_lemma covers gen hash ccinfo_of base rel dev :
+  (forall exec e c, keeps_world e = true ->
+     behaviour gen exec base rel dev (apply_edit e c) <> behaviour gen exec base rel dev c ->
+     text_of gen hash ccinfo_of base rel dev covers (apply_edit e c) <> text_of gen hash ccinfo_of base rel dev covers c) ->
+  covers = true.
+Proof.
+  intros Hall. destruct covers; [reflexivity|exfalso].
+  apply (Hall (fun _ cmd _ => Z.of_nat (length cmd)) (ELdflags [0]) (mkCfg 0 [] [] [] [] [] false 0)).
+  - reflexivity.
+  - unfold behaviour, exec_cmd; simpl. rewrite !app_length; simpl. lia.
+  - apply link_edit_leaves_text_lemma. reflexivity.
+Qed.
